@@ -385,12 +385,18 @@ def check(ctx):
                 created.append((n, par.targets[0]))
     ctx.need(bool(created), "Config._set_value no longer builds a sub-configuration for a nested map: vanished anchor")
     for n, var in created:
+        def is_created(e, at, n=n):
+            """a local name that holds the configuration created at n (possibly under the names of inlined helpers)"""
+            if not isinstance(e, ast.Name):
+                return False
+            srcs = value_sources(sv, e, at)
+            return bool(srcs) and all(k == "expr" and pl is n.ast for k, pl in srcs)
         loads_ = [m for m in gsv.nodes if m.kind == "call" and isinstance(m.ast.func, ast.Attribute) and m.ast.func.attr == "load_tree"
-                  and isinstance(m.ast.func.value, ast.Name) and m.ast.func.value.id == var.id]
+                  and is_created(m.ast.func.value, m)]
         takes = []
         for m in gsv.nodes:
             if m.kind == "assign" and isinstance(m.ast, ast.Assign) and any(
-                    isinstance(t, ast.Attribute) and t.attr.endswith("__keyfile") and isinstance(t.value, ast.Name) and t.value.id == var.id for t in m.ast.targets):
+                    isinstance(t, ast.Attribute) and t.attr.endswith("__keyfile") and is_created(t.value, m) for t in m.ast.targets):
                 v = m.ast.value
                 prev_ok = False
                 if isinstance(v, ast.Attribute) and v.attr.endswith("__keyfile"):
